@@ -90,4 +90,8 @@ MUTANTS = [
          find='                for tracer in self._tracers:\n                    tracer.on_error(trace_ctx, request, e)\n',
          replace='                if isinstance(e, Exception):\n                    for tracer in self._tracers:\n                        tracer.on_error(trace_ctx, request, e)\n',
          expect='TRACE-TYPESTATE'),
+    dict(name='retried-translates-exception', file='pjrpc/client/client.py', nth=0,
+         find='            response = wrapped_method(self, request, **kwargs)\n',
+         replace='            try:\n                response = wrapped_method(self, request, **kwargs)\n            except ValueError as e:\n                raise exceptions.DeserializationError(str(e)) from e\n',
+         expect='TRACE-RERAISE'),
 ]
